@@ -372,6 +372,167 @@ def scenario(ck, rng, terms, metas):
     return
 
 
+# ---- the XML mediator -------------------------------------------------------------------------------------------------
+def xml_input(rng, n):
+    """an XML document of n records <a> (with clutter elements in between) and what every record is about"""
+    recs, parts = [], []
+    for i in range(n):
+        name = rng.choice(['alice', 'bob', 'x y', 'Ünï', ''])
+        tags = rng.sample(['t1', 't2', 't3'], rng.randint(0, 2))
+        alt = rng.sample(['u1', 'u2', 't1'], rng.randint(0, 2))
+        num = rng.choice([None, '5', '-17', 'broken'])
+        body = ('<n>%s</n>' % name if name or rng.random() < 0.5 else '') + ''.join('<t>%s</t>' % t for t in tags)
+        if alt or rng.random() < 0.3:
+            body += '<alt>%s</alt>' % ''.join('<t>%s</t>' % t for t in alt)
+        parts.append('<a%s>%s</a>' % (' num="%s"' % num if num is not None else '', body))
+        for _ in range(rng.choice([0, 0, 1, 3])):
+            parts.append('<junk><deep><er/></deep></junk>')
+        props = {}
+        if name:
+            props['name'] = [name]
+        if tags or alt:
+            props['tags'] = sorted(set(tags) | set(alt))
+        if num is not None:
+            props['num'] = [num]
+        recs.append(props)
+    return ('<root><records>%s</records></root>' % ''.join(parts)).encode('utf-8'), recs
+
+
+def xml_scenario(ck, rng):
+    """records of an XML document through XmlTranscoderMediator: every valid record yields its event (values of all XPath expressions
+    that feed a property are united), invalid ones are skipped or stop the stream, the output is one valid document"""
+    from edxml.transcode.xml import XmlTranscoderMediator, XmlTranscoder
+    from edxml.transcode import NullTranscoder
+    from edxml.error import EDXMLError
+    from edxml.ontology import DataType
+
+    class X(XmlTranscoder):
+        TYPES = ['rec.x']
+        TYPE_MAP = {'.': 'rec.x'}
+        TYPE_PROPERTIES = {'rec.x': {'name': 'ot-s', 'tags': 'ot-s', 'num': 'ot-n'}}
+        TYPE_OPTIONAL_PROPERTIES = {'rec.x': ['tags', 'num']}
+        TYPE_MULTI_VALUED_PROPERTIES = {'rec.x': ['tags']}
+        PROPERTY_MAP = {'rec.x': {'n': 'name', 't': 'tags', 'alt/t': 'tags', '@num': 'num'}}
+
+        def create_object_types(self, ontology):
+            ontology.create_object_type('ot-s')
+            ontology.create_object_type('ot-n', data_type=DataType.int().get())
+    cfg = {'ignore_invalid': rng.random() < 0.6, 'discard_junk': rng.random() < 0.5}
+    data, recs = xml_input(rng, rng.randint(1, 8))
+    inp = {'config': cfg, 'input': data.decode('utf-8')}
+    out = io.BytesIO()
+    err = None
+    try:
+        with XmlTranscoderMediator(out) as m:
+            m.register('/root/records/a', X())
+            if cfg['discard_junk']:
+                m.register('/root/records/junk', NullTranscoder())
+            if cfg['ignore_invalid']:
+                m.ignore_invalid_events()
+            m.add_event_source('/src/xml/')
+            m.set_event_source('/src/xml/')
+            m.parse(io.BytesIO(data))
+    except EDXMLError:
+        err = 'edxml'
+    except Exception as ex:
+        ck.oracle_failures.append({'signature': 'xml-mediator/raises/%s' % type(ex).__name__, 'input': inp, 'observed': str(ex)[:200]})
+        return
+    ck.cov['evaluations'] += 1
+    ck.dist('xml-mediator:' + ('stopped' if err else 'completed'))
+    items, perr = parse_output(out.getvalue())
+    if perr:
+        ck.oracle_failures.append({'signature': 'xml-mediator/output-not-a-valid-document/%s' % perr.split(':')[0], 'input': inp, 'observed': perr})
+        return
+    evs = [x[3] for x in items if x[0] == 'event']
+    j = 0
+    for props in recs:
+        valid = bool(props.get('name')) and all(c03lib.spec_valid('number:int:signed', v) is True for v in props.get('num', []))
+        if valid:
+            if j >= len(evs) or evs[j] != {k: sorted(v) for k, v in props.items()}:
+                if err and j >= len(evs):
+                    break
+                ck.oracle_failures.append({'signature': 'xml-mediator/valid-event-missing-or-changed', 'input': inp,
+                                           'observed': 'expected event %r at position %d, output has %r' % (props, j, evs[j] if j < len(evs) else None)})
+                return
+            j += 1
+        elif not cfg['ignore_invalid']:
+            break          # the stream stops at the first invalid event
+    if j != len(evs):
+        ck.oracle_failures.append({'signature': 'xml-mediator/unexpected-event-in-output', 'input': inp, 'observed': 'output holds %d events, %d accounted for' % (len(evs), j)})
+        return
+    ck.cov['distinct_nontrivial'] += 1
+
+
+def recovery_scenario(ck, rng):
+    """histories around a refused record and around close(): a record that is refused (EDXML error) leaves the mediator usable - sources
+    added afterwards reach the stream, later valid records are written; a source added after the last record is still written by close()"""
+    from edxml.transcode.object import ObjectTranscoderMediator
+    from edxml.error import EDXMLError
+    A, F = make_transcoders(False, False)
+
+    class M(ObjectTranscoderMediator):
+        TYPE_FIELD = 'type'
+    to_file = rng.random() < 0.5
+    out = io.BytesIO() if to_file else None
+    m = M(out)
+    m.register('a', A())
+    m.add_event_source('/src/one/')
+    m.set_event_source('/src/one/')
+    chunks, history, expected, sources = [], [], [], ['/src/one/']
+    cur = '/src/one/'
+    steps = rng.sample(['good', 'bad', 'source', 'good', 'bad', 'source', 'good'], rng.randint(3, 7)) + rng.choice([[], ['late-source']])
+    for k, st in enumerate(steps):
+        try:
+            if st in ('source', 'late-source'):
+                uri = '/src/n%d/' % k
+                m.add_event_source(uri)
+                sources.append(uri)
+                if st == 'source':
+                    m.set_event_source(uri)
+                    cur = uri
+                history.append(['add_event_source', uri, st])
+            else:
+                rec = {'type': 'a', 'name': 'n%d' % k}
+                if st == 'bad':
+                    rec['count'] = 'broken'
+                history.append(['process', rec])
+                try:
+                    chunks.append(m.process(dict(rec)) or b'')
+                    if st == 'bad':
+                        ck.oracle_failures.append({'signature': 'recovery/invalid-event-accepted', 'input': {'history': history}, 'observed': 'process() returned'})
+                        return
+                    expected.append(({'name': [rec['name']]}, cur))
+                except EDXMLError:
+                    if st != 'bad':
+                        ck.oracle_failures.append({'signature': 'recovery/valid-event-rejected-after-a-refused-record', 'input': {'history': history},
+                                                   'observed': 'process() raised an EDXML error for a valid record'})
+                        return
+        except Exception as ex:
+            ck.oracle_failures.append({'signature': 'recovery/raises/%s' % type(ex).__name__, 'input': {'history': history}, 'observed': str(ex)[:200]})
+            return
+    try:
+        tail = m.close() or b''
+    except Exception as ex:
+        ck.oracle_failures.append({'signature': 'recovery/close-raises/%s' % type(ex).__name__, 'input': {'history': history}, 'observed': str(ex)[:200]})
+        return
+    data = out.getvalue() if to_file else b''.join(chunks) + tail
+    ck.cov['evaluations'] += 1
+    ck.dist('recovery-history')
+    inp = {'history': history, 'output': data.decode('utf-8', 'replace')[-2500:]}
+    items, perr = parse_output(data)
+    if perr:
+        ck.oracle_failures.append({'signature': 'recovery/output-not-a-valid-document/%s' % perr.split(':')[0], 'input': inp, 'observed': perr})
+        return
+    evs = [(x[3], x[2]) for x in items if x[0] == 'event']
+    if evs != [({k: sorted(v) for k, v in p.items()}, src) for p, src in expected]:
+        ck.oracle_failures.append({'signature': 'recovery/events-differ', 'input': inp, 'observed': 'output events %r, expected %r' % (evs, expected)})
+        return
+    onts = [x for x in items if x[0] == 'ontology']
+    if not onts or set(onts[-1][1]) != set(sources):
+        ck.oracle_failures.append({'signature': 'recovery/final-ontology-lacks-a-source', 'input': inp,
+                                   'observed': 'sources in the last ontology element %r, added %r' % (onts[-1][1] if onts else None, sources)})
+
+
 def replay(path):
     obj = json.load(open(path))
     if obj.get('kind') != 'failing-input':
@@ -393,6 +554,10 @@ def main(argv):
     terms, metas = [], []
     for i in range(ck.budget(250, 3000)):
         scenario(ck, rng, terms, metas)
+    for i in range(ck.budget(120, 1500)):
+        xml_scenario(ck, rng)
+    for i in range(ck.budget(60, 600)):
+        recovery_scenario(ck, rng)
     # ObjectTranscoder.generate against the model, record by record
     gterms, gmetas = [], []
     for i in range(ck.budget(600, 6000)):
